@@ -13,6 +13,9 @@ the library calls `ast.*` and `DiGraph.add_edge / has_node / ...`.  Private help
           decided by a membership test in the internal-module set, independently for each name of the statement
   C02.R4  relative resolution: the package a relative import is resolved against is ancestors(importer)[-level], and ancestors()
           yields exactly the proper dotted prefixes of a module name
+  C02.R6  completeness on the way to the graph: wherever a collection of import records is de-duplicated / filtered by record equality
+          (set(), dict.fromkeys, `in`, ...), equality of two records must imply the same (importer(), importee()) - else two import
+          statements collapse into one edge
   C02.R5  converse: import records are created only by the collector; the graph adds an import edge importer -> importee exactly when
           both are known nodes, distinct (after flattening) and the edge is not present yet - for no other reason is it dropped
 """
@@ -23,11 +26,11 @@ import ast
 import re
 from typing import Any
 
-from core.loader import AnalysisError, Repo, calls_in, norm
+from core.loader import AnalysisError, FuncInfo as FuncInfoT, Repo, calls_in, norm, own_nodes
 from core.report import Result
 
 from . import c02_builtins  # noqa: F401  (installs the full interpreter into Explorer)
-from .c02_sym import ANode, App, Cat, Explorer, Inst, Run, Sym, Term, Unsupported, cat, mentions, show
+from .c02_sym import ANode, App, Cat, Explorer, Inst, Run, Sym, Term, Unsupported, cat, dataclass_eq, mentions, show
 from .common import reachable_funcs, stmt_of, types_of, where
 
 CONVERTER = "pytestarch.eval_structure_generation.file_import.converter"
@@ -391,6 +394,8 @@ def run_r2_r3_r4(repo: Repo, res: Result, gram: dict, col: Collector) -> tuple[l
                 problems["raise"].append(f"the conversion raises {r.raised} when {pc}")
                 continue
             recs = r.value
+            if len(recs) != len(case.names) and any(v and a.fn == "eq" and all(mentions(a, x) for x in case.names) for a, v in r.path.items()):
+                continue  # the two names were decided to be the same name: one record may stand for both
             if len(recs) != len(case.names):
                 problems["count"].append(f"{len(recs)} record(s) for a statement importing {len(case.names)} names ({', '.join(show(x[2]) for x in recs) or 'none'}) when {pc}")
                 continue
@@ -748,6 +753,148 @@ def run_r5_graph(repo: Repo, res: Result) -> None:
     res.add("C02.R5", key + " [no other reason to drop an edge]", not drop_bad, "an edge between two known modules is only suppressed as a self-edge or because it is already present" if not drop_bad else drop_bad[0] + ": imports between two known modules silently disappear from the architecture", edge_where, kind="dominance")
 
 
+# --------------------------------------------------------------------------- R6
+
+
+def _substitute(t: Any, pairs: list[tuple[Any, Any]]) -> Any:
+    """Rewrites a term with the equalities decided on a path (right-hand sides replaced by left-hand sides) to a fixpoint."""
+
+    def rw(x: Any) -> Any:
+        for a, b in pairs:
+            if x == b:
+                return a
+        if isinstance(x, Cat):
+            return cat(*[rw(p) for p in x.parts])
+        if isinstance(x, App):
+            return App(x.fn, tuple(rw(p) for p in x.args))
+        if isinstance(x, tuple):
+            return tuple(rw(p) for p in x)
+        return x
+
+    for _ in range(6):
+        n = rw(t)
+        if n == t:
+            return n
+        t = n
+    return t
+
+
+def record_equality_sites(repo: Repo) -> list[tuple[FuncInfoT, ast.AST, str]]:
+    """Expressions anywhere in src that compare / hash import records: de-duplication or filtering by record equality."""
+    T = types_of(repo)
+    base = repo.cls(TYPES_MOD, "Import")
+
+    def is_record(t: tuple) -> bool:
+        ms = t[1] if t[0] == "union" else [t]
+        return any(m[0] == "cls" and m[1] in repo.classes and repo.is_subclass(repo.classes[m[1]], base.fq) for m in ms)
+
+    def holds_records(t: tuple) -> bool:
+        ms = t[1] if t[0] == "union" else [t]
+        return any(m[0] == "b" and m[1] in ("list", "seq", "iter", "set", "frozenset", "tuple", "dict") and m[2] and any(is_record(a) for a in m[2][:1]) for m in ms)
+
+    out = []
+    for f in repo.all_functions():
+        if isinstance(f.node, ast.Lambda):
+            continue
+        for n in own_nodes(f.node):
+            try:
+                if isinstance(n, ast.Call):
+                    fn = n.func
+                    name = fn.id if isinstance(fn, ast.Name) else fn.attr if isinstance(fn, ast.Attribute) else ""
+                    args = [a.value if isinstance(a, ast.Starred) else a for a in n.args]
+                    if name in ("set", "frozenset", "Counter", "fromkeys", "update", "union", "difference", "intersection", "symmetric_difference", "issubset", "issuperset") and args and holds_records(T.expr(f, args[0])):
+                        out.append((f, n, f"`{norm(n)}` keys a collection by record equality"))
+                    elif name in ("add", "remove", "discard", "index", "count", "__contains__") and isinstance(fn, ast.Attribute) and args and is_record(T.expr(f, args[0])):
+                        out.append((f, n, f"`{norm(n)}` compares records"))
+                elif isinstance(n, ast.SetComp) and is_record(T.expr(f, n.elt)):
+                    out.append((f, n, f"`{norm(n)}` collects records in a set"))
+                elif isinstance(n, ast.DictComp) and is_record(T.expr(f, n.key)):
+                    out.append((f, n, f"`{norm(n)}` keys a dict by records"))
+                elif isinstance(n, ast.Set) and any(isinstance(e, ast.Starred) and holds_records(T.expr(f, e.value)) or (not isinstance(e, ast.Starred) and is_record(T.expr(f, e))) for e in n.elts):
+                    out.append((f, n, f"`{norm(n)}` collects records in a set"))
+                elif isinstance(n, ast.Compare) and any(isinstance(o, (ast.In, ast.NotIn)) for o in n.ops) and is_record(T.expr(f, n.left)):
+                    out.append((f, n, f"`{norm(n)}` tests membership of a record by equality"))
+            except Exception:  # noqa: BLE001  (the resolver gives up on an expression: not a site we can type)
+                continue
+    return out
+
+
+def run_r6(repo: Repo, res: Result, gram: dict, col: Collector) -> None:
+    base = repo.cls(TYPES_MOD, "Import")
+    by_value = [c for c in import_record_classes(repo) if repo.lookup_method(c, "__eq__") is not None or repo.lookup_method(c, "__hash__") is not None or dataclass_eq(c)]
+    res.analysed["record_classes_with_value_equality"] = [c.name for c in by_value]
+    if not by_value:
+        res.observe("C02.R6: import records compare by identity: no de-duplication of a record list can merge two statements")
+        return
+    sites = record_equality_sites(repo)
+    # pairs of statements that differ in one component; equal records must mean equal edges
+    P, n, F, X, S = Sym("P", "optstr"), "n", Sym("importer", "str"), Sym("prefix", "anystr"), Sym("internal", "set")
+    lossy: list[str] = []
+    gave_up: Unsupported | None = None
+    named = col.named
+
+    def pair_runs(stmts_a: list[ANode], stmts_b: list[ANode], Fa: Any, Fb: Any) -> list[Run]:
+        def entry(it):
+            conv = it.instantiate(col.conv_cls, [], {}, None, None)
+            nms = [it.instantiate(named, [node(gram, "Module", body=st), fx], {}, None, None) for st, fx in ((stmts_b, Fb), (stmts_a, Fa))]
+            recs = it.call(it.getattr_value(conv, "convert"), [nms, X, S], {})
+            kind, items = it.iterate(recs, col.entry.node, None)
+            if kind != "concrete" or len(items) != 2 or not all(isinstance(r, Inst) for r in items):
+                return None
+            r1, r2 = items
+            same = it.equal(r1, r2)
+            return same, [(it.call(it.getattr_value(r, "importer"), [], {}), it.call(it.getattr_value(r, "importee"), [], {})) for r in (r1, r2)], r1.ci.name
+
+        ex = Explorer(repo, opaque=col.opaque, max_runs=3000)
+        return ex.explore(entry)
+
+    cases = []
+    for cls in import_classes_of(gram):
+        has_module = any(f == "module" for f, _ in gram[cls])
+        if has_module:
+            L1, L2 = Sym("level1", "nat"), Sym("level2", "nat")
+            cases.append((f"`from <level1 dots>P import n` / `from <level2 dots>P import n` in one file", [import_leaf(gram, cls, [n], P, L1)], [import_leaf(gram, cls, [n], P, L2)], F, F))
+            cases.append((f"`from P1 import n` / `from P2 import n` in one file", [import_leaf(gram, cls, [n], Sym("P1", "optstr"), L1)], [import_leaf(gram, cls, [n], Sym("P2", "optstr"), L1)], F, F))
+        cases.append((f"ast.{cls} of two different names in one file", [import_leaf(gram, cls, ["n1"], P, Sym("level1", "nat"))], [import_leaf(gram, cls, ["n2"], P, Sym("level1", "nat"))], F, F))
+        cases.append((f"the same ast.{cls} statement in two files", [import_leaf(gram, cls, [n], P, Sym("level1", "nat"))], [import_leaf(gram, cls, [n], P, Sym("level1", "nat"))], Sym("importer1", "str"), Sym("importer2", "str")))
+    for what, sa, sb, Fa, Fb in cases:
+        try:
+            runs = pair_runs(sa, sb, Fa, Fb)
+        except Unsupported as u:
+            gave_up = gave_up or u
+            continue
+        for r in runs:
+            if r.outcome != "return" or r.value is None:
+                continue
+            same, pairs, clsname = r.value
+            if not same:
+                continue
+            eqs = [(a.args[0], a.args[1]) for a, v in r.path.items() if a.fn == "eq" and v and isinstance(a.args[1], Term)]
+            e1, e2 = (_substitute(p, eqs) for p in pairs)
+            if e1 != e2:
+                lossy.append(f"two {clsname} records from {what} compare equal although they stand for different imports: {show(pairs[0][0])} -> {show(pairs[0][1])} and {show(pairs[1][0])} -> {show(pairs[1][1])} (equality decided by: {fmt_path(r, lambda a: a.fn == 'eq') })")
+                break
+    key = f"{base.module.relpath}::Import records::equality determines the edge"
+    if gave_up is not None and not lossy:
+        if sites:
+            res.undecide("C02.R6", key, f"record equality cannot be interpreted ({gave_up.msg}) and records are compared at {len(sites)} site(s)", gave_up.where())
+        else:
+            res.observe(f"C02.R6: record equality not interpreted ({gave_up.msg}); no site compares records")
+        return
+    if not sites:
+        res.add("C02.R6", key, True, ("record equality is lossy but no code compares or hashes records: " + lossy[0]) if lossy else "equal records always have the same importer() and importee()", nontrivial=bool(lossy), kind="flow")
+        return
+    for f, n_, text in sites:
+        res.add(
+            "C02.R6",
+            repo.key(f, stmt_of(n_)) + " [records merged only when they are the same edge]",
+            not lossy,
+            f"{text}; equal records always have the same importer() and importee()" if not lossy else f"{text}, but {lossy[0]}: one of the two import statements yields no edge",
+            where(f, n_),
+            kind="flow",
+        )
+
+
 def run(repo: Repo) -> Result:
     res = Result("C02")
     res.explanation = (
@@ -769,6 +916,7 @@ def run(repo: Repo) -> Result:
         run_r1(repo, res, gram, col, usable)
     run_r5_creators(repo, res, col)
     run_r5_graph(repo, res)
+    run_r6(repo, res, gram, col)
     res.analysed["symbolic_paths"] = col.paths
     if col.fallbacks:
         res.analysed["uninterpreted_functions"] = sorted(col.fallbacks)
